@@ -627,8 +627,11 @@ def zrank_init(rep, ex: Explorer, cls=ZP):
     n_facts = n_plain = 0
     for ext in (Const(None), Const(True), Const(False)):
         for with_facts in (True, False):
-            def setup(I, ext=ext, with_facts=with_facts):
+            held = {}
+
+            def setup(I, ext=ext, with_facts=with_facts, held=held):
                 bb = make_belief_base(I)
+                held["bb"] = bb
                 s = I.alloc(HObj(cls, {}))
                 facts = ElemV(("facts",), "coll", "factentry") if with_facts else Const(None)
                 return [s, bb, ElemV(SIG, "coll", "str")], {"facts": facts, "extended": ext}
@@ -647,6 +650,15 @@ def zrank_init(rep, ex: Explorer, cls=ZP):
                 mode_ok = isinstance(c.weakly, Const) and bool(c.weakly.value) == bool(want_mode)
                 rep.check(mode_ok, "FACT.shape" if with_facts else "ZRANK.recursion", f"{site}:{c.node.lineno}", f"partition mode (extended={ext.value}, facts={with_facts})",
                           "extended mode as requested; when unspecified: extended with facts, strict without", extracted=repr(c.weakly), required=str(bool(want_mode)), function=site)
+                # the caller's belief base is input only: later rankings of the same base see it unchanged
+                bbo = p.state.heap.get(held["bb"].oid) if isinstance(held.get("bb"), Ref) else None
+                cd0 = bbo.attrs.get("conditionals") if isinstance(bbo, HObj) else None
+                d0 = p.state.heap.get(cd0.oid) if isinstance(cd0, Ref) else None
+                if isinstance(d0, HDict):
+                    untouched = not d0.entries and len(d0.each) == 1 and d0.each[0][2] == KEYS_D
+                    rep.check(untouched, "FACT.shape" if with_facts else "ZRANK.recursion", site, f"caller's base untouched (extended={ext.value}, facts={with_facts})",
+                              "constructing the ranking leaves the conditionals of the caller's belief base as they were",
+                              extracted=f"{len(d0.entries)} literal entries, {len(d0.each)} group(s)", required="the base's own conditionals only", function=site)
                 ents, each = c.bbdesc[1], c.bbdesc[2]
                 base_each = [e for e in each if e[0] == KEYS_D]
                 fact_each = [e for e in each if e[0] != KEYS_D]
@@ -689,6 +701,62 @@ def zrank_init(rep, ex: Explorer, cls=ZP):
                     rep.check(ok, "ZRANK.recursion", site, f"partition used (extended={ext.value})", "the ranking uses the partition of the base", extracted=repr(setp[0].value) if setp else "none", required="partition of the base", function=site)
     rep.floor("SystemZPreOCF construction paths with facts", n_facts, 3)
     rep.floor("SystemZPreOCF construction paths without facts", n_plain, 3)
+
+
+def factory_forwarding(rep, ex: Explorer, which=("init_system_z", "init_random_min_c_rep", "init_custom")):
+    """FACTORY.forward: the PreOCF.init_* factories hand every one of their parameters to the constructor parameter of
+    the same name and return the constructed object (the documented entry points observe the constructors through them)."""
+    targets = {"init_system_z": ZP, "init_random_min_c_rep": CR, "init_custom": CUS}
+    n = 0
+    for name in which:
+        qual = f"{PO}.{name}"
+        site = fn_label(ex.prog, qual)
+        fi = ex.prog.functions.get(qual)
+        if fi is None:
+            raise AnalysisError(f"factory {qual} not found")
+        tcls = targets[name]
+        init = ex.prog.lookup_method(tcls, "__init__")
+        if init is None:
+            raise AnalysisError(f"{tcls}.__init__ not found")
+        a = fi.node.args
+        pos = [x.arg for x in a.posonlyargs + a.args][1:]
+        kwo = [x.arg for x in a.kwonlyargs]
+        ia = init.node.args
+        ipos = [x.arg for x in ia.posonlyargs + ia.args][1:]
+        ikw = [x.arg for x in ia.kwonlyargs]
+        seen = []
+
+        def construct(I, fi_, args, kwargs, node, seen=seen):
+            bound = {}
+            for i, v in enumerate(args):
+                if i < len(ipos):
+                    bound[ipos[i]] = v
+            for k, v in kwargs.items():
+                bound[k] = v
+            seen.append(bound)
+            I.log("factory.construct", node, bound=tuple(sorted((k, repr(v)) for k, v in bound.items())))
+            return Sym(("constructed", tcls))
+
+        def setup(I, pos=pos, kwo=kwo):
+            return [Const(None)] + [Sym(("arg", x)) for x in pos], {x: Sym(("arg", x)) for x in kwo}
+
+        paths = ex.run(qual, setup, summaries={tcls: construct}, key=f"factory-{name}")
+        for p in paths:
+            cons = [ev for ev, Q in iter_events(p.events) if ev.kind == "factory.construct"]
+            ok = p.outcome[0] == "return" and len(cons) == 1 and p.outcome[1] == Sym(("constructed", tcls))
+            rep.check(ok, "FACTORY.forward", site, "constructs and returns", f"the factory returns the object constructed by {tcls.rsplit('.', 1)[-1]}",
+                      extracted=f"{p.outcome[0]} {p.outcome[1]!r}"[:100], required="the constructed object", function=site)
+            if len(cons) != 1:
+                continue
+            bound = dict(cons[0].bound)
+            for x in pos + kwo:
+                if x not in ipos + ikw:
+                    continue
+                n += 1
+                rep.check(bound.get(x) == repr(Sym(("arg", x))), "FACTORY.forward", f"{site}:{cons[0].node.lineno}", f"parameter {x}", "every parameter of the factory reaches the constructor parameter of the same name",
+                          extracted=str(bound.get(x, "not passed (constructor default)")), required=f"the factory's {x}", function=site)
+    rep.floor("factory parameters forwarded", n, 3 * len(which))
+    return {"factory_params": n}
 
 
 def _fresh_counter(p, fam):
